@@ -124,6 +124,9 @@ struct Cfg {
     /// Build the next stage directly on the adapter value (`adapter.filter(..)`)
     /// instead of through `into_parts` + tap (no per-stage checks above it).
     direct: bool,
+    /// Keep `dynamic_*_with_initial_value` adapters as values and build the
+    /// next stage on them (into_parts with a non-zero limit).
+    via_adapter: bool,
     /// Run the same chain on the plain flavour next to the batched one and
     /// compare the flattened outputs (C13).
     twin: bool,
